@@ -307,7 +307,9 @@ pub fn execute_guarded(scen: &dyn Scenario, plan: &Plan, ctx: &mut RunCtx) {
     if let Err(p) = r {
         crate::faults::stdout_heal();
         let _ = crate::faults::mem_end();
-        if p.site.starts_with("src/") || p.site.starts_with("sim/src/") || p.site == "unknown" {
+        // the harness's own sources, the standard library and serde_json (which the harness indexes into all the time) are
+        // the harness's side; the library's sources and the crates it calls are the library's
+        if p.site.starts_with("src/") || p.site.starts_with("sim/src/") || p.site == "unknown" || p.site.contains("/rustc/") || p.site.contains("library/") || p.site.starts_with("serde_json") {
             eprintln!("HARNESS-ERROR panic in the harness at {}: {}", p.site, p.msg);
             std::process::exit(2);
         }
@@ -877,7 +879,12 @@ pub fn replay_main(path: &Path, verbose: bool) -> i32 {
     }
     let prelude = load_prelude(path);
     let pref = load_prelude_ref(path);
-    let res = exec_plan_full(&scratch, &scenario, &plan, &prelude, pref.as_ref(), &BTreeSet::new(), true, if pref.is_some() { 600 } else { 60 });
+    // like the batch, a replay runs past findings that are listed as known - except the one the file itself is about
+    let mut known: BTreeSet<String> = load_findings(&property).into_iter().filter(|f| f.status == "known").map(|f| f.signature).collect();
+    if let Some(e) = &expect {
+        known.remove(&e.signature);
+    }
+    let res = exec_plan_full(&scratch, &scenario, &plan, &prelude, pref.as_ref(), &known, true, if pref.is_some() { 600 } else { 60 });
     let _ = fs::remove_dir_all(&scratch);
     if verbose {
         for l in &res.trace {
@@ -1002,6 +1009,7 @@ pub fn orchestrate(a: OrchArgs) -> i32 {
     let mut confirmed: Option<(u64, Violation, Plan)> = None;
     let mut confirmed_prelude: Vec<Plan> = vec![];
     let confirmed_pref_cell: std::cell::RefCell<Option<PreludeRef>> = std::cell::RefCell::new(None);
+    let unreproduced: std::cell::RefCell<Vec<String>> = std::cell::RefCell::new(vec![]);
     let mut dropped_timeouts = 0u64;
     let n_shards = a.workers.max(1).min(indices.len().max(1)) as u64;
     let dead_runs: BTreeSet<u64> = agg.dead.clone();
@@ -1023,9 +1031,11 @@ pub fn orchestrate(a: OrchArgs) -> i32 {
                 None => {
                     // not reproducible alone: does it need what earlier runs of the same worker left behind in the process?
                     let mut pre: Vec<Plan> = vec![];
-                    for k in (1..=12u64).rev() {
-                        if let Some(j) = run.checked_sub(k * n_shards) {
-                            pre.push(plan_for(info.name, a.seed, a.tier, j));
+                    for k in 1..=12u64 {
+                        match run.checked_sub(k * n_shards) {
+                            // a run that killed its worker ends the history: the next worker started with fresh process state
+                            Some(j) if !dead_runs.contains(&j) => pre.insert(0, plan_for(info.name, a.seed, a.tier, j)),
+                            _ => break,
                         }
                     }
                     let with_pre = exec_plan_full(&scratch, info.name, &plan, &pre, None, &known, false, 240);
@@ -1077,8 +1087,14 @@ pub fn orchestrate(a: OrchArgs) -> i32 {
                                     return;
                                 }
                                 None => {
-                                    let _ = fs::remove_dir_all(&scratch);
-                                    harness_error(&format!("violation `{}` of run {} did not reproduce in a fresh process: alone, after the 12 preceding runs of its worker, or after that worker's whole history", v.signature, run));
+                                    if v.signature.starts_with("abort:signal-9") {
+                                        // SIGKILL never comes from the library: the kernel's OOM killer or an operator ended the worker
+                                        println!("note: run {} was killed from outside (SIGKILL) and completes in a fresh process; not a violation", run);
+                                        *dropped_timeouts += 1;
+                                    } else {
+                                        println!("note: violation `{}` of run {} did not reproduce in a fresh process: alone, after the 12 preceding runs of its worker, or after that worker's whole history", v.signature, run);
+                                        unreproduced.borrow_mut().push(format!("{} (run {})", v.signature, run));
+                                    }
                                 }
                             }
                         }
@@ -1119,6 +1135,11 @@ pub fn orchestrate(a: OrchArgs) -> i32 {
         }
     }
     let confirmed_pref: Option<PreludeRef> = confirmed_pref_cell.borrow().clone();
+    if confirmed.is_none() && !unreproduced.borrow().is_empty() {
+        // something was observed that no fresh process shows again: nothing this run reports can be believed
+        let _ = fs::remove_dir_all(&scratch);
+        harness_error(&format!("violation(s) seen in the batch that do not reproduce in a fresh process: {}", unreproduced.borrow().join("; ")));
+    }
     if let Some((run, target, plan)) = confirmed {
         let (min_plan, tries) = if confirmed_prelude.is_empty() && confirmed_pref.is_none() { minimise(&scratch, scen.as_ref(), info.name, &plan, &target, &known) } else { (plan.clone(), 0) };
         let final_res = exec_plan_full(&scratch, info.name, &min_plan, &confirmed_prelude, confirmed_pref.as_ref(), &known, true, 600);
